@@ -164,7 +164,7 @@ def _run_task(task):
     E.explore(h)
     st = E.stats()
     st['wall'] = round(time.time() - t, 2)
-    return kind, args, st, E.violations[:5], E.unsupported[:3]
+    return kind, args, st, E.violations[:5], E.unsupported[:3] + E.errors[:3]
 
 
 _TL = {}
@@ -274,7 +274,7 @@ def main():
         pk['tasks'] += 1
         for k in ('paths', 'z3_checks', 'assertions', 'solver_s'):
             pk[k] = round(pk[k] + st[k], 3)
-        if st['unsupported'] or st['bound_hits']:
+        if st['unsupported'] or st['bound_hits'] or st['errors']:
             run.inconclusive_('%s%r: unsupported=%r bound_hits=%d' % (kind, args, unsup, st['bound_hits']))
         if st['reached'] == 0:
             run.inconclusive_('%s%r: vacuous - no path reached an assertion' % (kind, args))
